@@ -2,6 +2,8 @@
 (* configuration emission: every initial state of Lifecycle (bounded) is one configuration *)
 EXTENDS Lifecycle, Json
 CONSTANT MaxMods
+NameOrder == <<"a", "b", "c", "d", "e", "p", "x", "y">>
+Ord(n) == CHOOSE k \in 1 .. Len(NameOrder) : NameOrder[k] = n
 GInit == /\ Init
          /\ Cardinality(mods) <= MaxMods
          /\ Cardinality(wrong) <= 1
@@ -9,6 +11,9 @@ GInit == /\ Init
          /\ \A m \in mods : Cardinality(att[m]) <= 2
          /\ polls \in {mods, {}} \cup {{m} : m \in mods}
          /\ writes \in {polls, {}, mods, mods \ polls}
+         \* every module has its own poll thread, or every module with attachments is served by the thread of its first one (`io`)
+         /\ \/ host = [m \in mods |-> m]
+            \/ host = [m \in mods |-> IF att[m] \cap mods = {} THEN m ELSE CHOOSE t \in att[m] \cap mods : \A u \in att[m] \cap mods : Ord(t) <= Ord(u)]
 GSpec == GInit /\ [][FALSE]_vars
 (* the design check needs only the failure kinds that differ for the automaton *)
 BasicFail == \A m \in mods : fail[m] \in {"none", "early", "init", "create"}
@@ -21,5 +26,5 @@ SumCard(f, S) == IF S = {} THEN 0 ELSE LET x == CHOOSE y \in S : TRUE IN Cardina
 MC3Init == /\ GInit /\ BasicFail
            /\ SumCard(att, mods) <= MaxEdges
 MC3Spec == MC3Init /\ [][Next]_vars
-Emit1 == PrintT(<<"BEH", ToJson([mods |-> mods, att |-> att, wrong |-> wrong, fail |-> fail, polls |-> polls, writes |-> writes])>>)
+Emit1 == PrintT(<<"BEH", ToJson([mods |-> mods, att |-> att, wrong |-> wrong, fail |-> fail, polls |-> polls, writes |-> writes, host |-> host])>>)
 =============================================================================
